@@ -52,7 +52,10 @@ where
     }
 
     fn call(&mut self, req: Req) -> Self::Future {
-        let mut inner = self.inner.clone();
+        // `poll_ready` was driven on `self.inner`: that instance takes the call, a fresh
+        // clone is left behind for the next request (Tower readiness contract)
+        let clone = self.inner.clone();
+        let mut inner = std::mem::replace(&mut self.inner, clone);
         let config = Arc::clone(&self.config);
         let rng = Arc::clone(&self.rng);
 
